@@ -83,9 +83,17 @@ struct Chunked {
     data: Vec<u8>,
     pos: usize,
     chunk: usize,
+    /// Give the processor away right before reporting end of file (the last seam point of a
+    /// load): clients that load at the same time then enter the part of `from_path` that follows
+    /// the reading — parsing, building the provider, whatever bookkeeping a change adds there —
+    /// side by side instead of one after the other.
+    yield_at_eof: bool,
 }
 impl Read for Chunked {
     fn read(&mut self, buf: &mut [u8]) -> std::io::Result<usize> {
+        if self.yield_at_eof && self.pos == self.data.len() {
+            std::thread::yield_now();
+        }
         let n = buf.len().min(self.chunk).min(self.data.len() - self.pos);
         buf[..n].copy_from_slice(&self.data[self.pos..self.pos + n]);
         self.pos += n;
@@ -145,6 +153,7 @@ fn client(id: usize, seed: u64, ops: usize, start: &std::sync::Barrier) {
             data: text.clone().into_bytes(),
             pos: 0,
             chunk,
+            yield_at_eof: false,
         }) as Box<dyn Read>)
     })));
     let s0 = ntp(1960, 1, 1);
@@ -232,8 +241,54 @@ fn client(id: usize, seed: u64, ops: usize, start: &std::sync::Barrier) {
             }
         }
     }
+    // Load storm: in each round every client loads a small bulletin of its own that nobody has
+    // loaded before, all at the same time (barrier), each file arriving in a single read — so
+    // that what is concurrent is not the reading but what a loader does AFTER it (seeded change
+    // M195: rows interned in a process-wide list, slot remembered under the read lock and used
+    // under the write lock). Then one lookup through the fresh provider.
+    for round in 0..STORM_ROUNDS {
+        let n = 2 + (id + round) % 3;
+        let mine: Vec<(i128, u8)> = (0..n)
+            .map(|j| (s1 + ((round * 3 + id) as i128) * 86_400 + (j as i128) * 31_536_000, 10 + j as u8))
+            .collect();
+        let mut text = String::from("#\tstorm\n");
+        for &(ts, dat) in &mine {
+            text.push_str(&format!("{ts}\t{dat}\n"));
+        }
+        hifitime::verif_seam::set_opener(Some(Box::new(move |_p| {
+            Ok(Box::new(Chunked {
+                data: text.clone().into_bytes(),
+                pos: 0,
+                chunk: usize::MAX,
+                yield_at_eof: true,
+            }) as Box<dyn Read>)
+        })));
+        start.wait();
+        let p = LeapSecondsFile::from_path("/mem/storm.list")
+            .unwrap_or_else(|e| fail(format!("CONC-VIOLATION client {id} storm round {round}: load failed: {e}")));
+        let got: Vec<(i128, u8)> = p.clone().map(|l| (l.timestamp_tai_s as i128, l.delta_at as u8)).collect();
+        if got != mine {
+            fail(format!("CONC-VIOLATION client {id} storm round {round}: loaded table {got:?} differs from the file it was loaded from {mine:?} (all clients loading at the same time)"));
+        }
+        let s = mine[n - 1].0;
+        let e = Epoch::from_duration(dur(s * NS), TimeScale::TAI);
+        let ans = e.leap_seconds_with(true, p);
+        if ans != Some(mine[n - 1].1 as f64) {
+            fail(format!("CONC-VIOLATION client {id} storm round {round}: fresh provider at TAI {s} s answers {ans:?}"));
+        }
+    }
     hifitime::verif_seam::set_opener(None);
 }
+
+/// The other clients are waiting at a barrier: report and end the process (a panic on this
+/// thread alone would leave them there).
+fn fail(msg: String) -> ! {
+    eprintln!("{msg}");
+    std::process::exit(101)
+}
+
+/// Rounds of the load storm at the end of every client's life (see `client`).
+const STORM_ROUNDS: usize = 12;
 
 fn main() {
     let a: Vec<String> = std::env::args().collect();
